@@ -70,6 +70,8 @@ func checkC17(w *World, tier string) *Report {
 	r.Assumptions = append(r.Assumptions, "StateDB instances are not shared between concurrently running EVMs (stated in the property)", "sync.Pool and sync/atomic are safe for concurrent use")
 	addSharedClosureStateRule(w, r, "R17.5")
 	addMutableGlobalRule(w, r, "R16.5")
+	addCaptureBalance(w, r, "R18.2")
+	r.Explanation += " R18.2 (shared with C18) every CaptureStart/CaptureEnter of Call and create is matched by its CaptureEnd/CaptureExit on every path, also on the paths an abort takes: a cancelled execution does not leave frame bookkeeping open."
 	return r
 }
 
